@@ -43,6 +43,117 @@ func (r *mwRun) recordSnap(version string, rows Rows) {
 	r.snaps = append(r.snaps, verSnap{version, rows})
 }
 
+// faultyVacuum: the vacuum runs under a storage fault. Whatever it reports, the vacuuming
+// connection goes on showing its rows (no refresh), fresh opens agree with the model, and
+// the history goes on. The version-side and reclaim oracles need a vacuum that succeeded.
+func (r *mwRun) faultyVacuum(s MWStep, where string, cutSec, modelCut int64, far bool, before Rows, from int) error {
+	w := r.ws[s.W]
+	client := fmt.Sprintf("verif://w%d", s.W)
+	count := 0
+	r.store.Intercept = func(q *fakes3.Req) error {
+		if q.Client != client || !q.Mutating() {
+			return nil
+		}
+		switch s.VacFault {
+		case "node-deletes":
+			if q.Op == "DELETE" && strings.Contains(q.Key, "/node/") {
+				return fakes3.ErrInjected
+			}
+		case "version-deletes":
+			if q.Op == "DELETE" && strings.Contains(q.Key, "/root/") {
+				return fakes3.ErrInjected
+			}
+		case "merged-deletes":
+			if q.Op == "DELETE" && strings.Contains(q.Key, "/root/merged/") {
+				return fakes3.ErrInjected
+			}
+		default:
+			count++
+			if count >= s.Mask {
+				return fakes3.ErrInjected
+			}
+		}
+		return nil
+	}
+	verr := w.conn.Vacuum(w.name, cutSec)
+	r.store.Intercept = nil
+	where = fmt.Sprintf("%s (vacuum under fault %s, reported: %v)", where, s.VacFault, verr)
+	if verr != nil {
+		r.o.Class("vacuum-failed-by-storage-fault")
+	} else {
+		r.o.Class("vacuum-under-fault-succeeded")
+	}
+	// was the vacuum's own (purged) version stored?
+	stored, storedName := false, ""
+	for _, q := range r.store.LogSince(from) {
+		if q.Client == client && q.Op == "PUT" && strings.Contains(q.Key, "/root/current/") && q.Err == "" {
+			stored, storedName = true, q.Key[strings.LastIndex(q.Key, "/")+1:]
+		}
+	}
+	onStored := stored && strings.Contains(mustVersion(w), storedName)
+	after, err := w.conn.Dump(w.name)
+	if err != nil {
+		return fmt.Errorf("%s: the vacuuming connection can no longer read the table: %v", where, err)
+	}
+	if !after.Equal(before) {
+		return fmt.Errorf("%s: the visible rows changed.\nbefore:\n%safter:\n%s", where, before, after)
+	}
+	if stored && onStored {
+		w.view.Vacuum(modelCut)
+	} else if stored {
+		// the purged version is in the bucket but the connection stayed on its old tree:
+		// record what the stored version contains so that merged readers can be predicted
+		pv := w.view.Clone()
+		pv.Vacuum(modelCut)
+		r.pub[storedName] = pv
+	}
+	// superseded versions that were in the bucket while this vacuum ran may have lost nodes
+	if r.interrupted == nil {
+		r.interrupted = map[string]bool{}
+	}
+	for _, n := range mergedVersions(r.store, r.prefix) {
+		r.interrupted[n] = true
+	}
+	if err := r.checkWriter(s.W, where); err != nil {
+		return err
+	}
+	if err := r.publish(w); err != nil {
+		return fmt.Errorf("%s: %v", where, err)
+	}
+	if far {
+		r.snaps, r.snapAt = nil, nil
+		if err := r.publish(w); err != nil {
+			return err
+		}
+	}
+	if err := r.observeAll([]int{1, 0, 2}, where+" (observers)"); err != nil {
+		return err
+	}
+	if !far {
+		return nil
+	}
+	for i, ow := range r.ws {
+		if i == s.W {
+			continue
+		}
+		u, err := r.expectCurrent(r.store, false)
+		if err != nil {
+			return fmt.Errorf("%s: %v", where, err)
+		}
+		if err := ow.conn.Refresh(ow.name); err != nil {
+			return fmt.Errorf("%s: refresh of writer %d: %v", where, i, err)
+		}
+		ow.view = u
+		if err := r.checkWriter(i, where+fmt.Sprintf(" (writer %d refreshed)", i)); err != nil {
+			return err
+		}
+		if err := r.publish(ow); err != nil {
+			return fmt.Errorf("%s: %v", where, err)
+		}
+	}
+	return nil
+}
+
 // Vacuum on the model: forget every operation on keys that are not live and
 // whose latest DELETE is older than the cutoff.
 func (s MSet) Vacuum(cut int64) (removedKeys int) {
@@ -109,7 +220,16 @@ type reachInfo struct {
 func (r *mwRun) reach(st *fakes3.Store) (*reachInfo, []string) {
 	ri := &reachInfo{versions: map[string]*Walk{}, parents: map[string][]string{}}
 	var problems []string
-	names := append(currentVersions(st, r.prefix), mergedVersions(st, r.prefix)...)
+	names := currentVersions(st, r.prefix)
+	for _, n := range mergedVersions(st, r.prefix) {
+		// a vacuum that was cut short by a storage fault deletes nodes before the objects of the
+		// superseded versions that needed them: those leftovers are not retained versions
+		// (nothing lists them for opening); versions merged after it are examined as usual
+		if r.interrupted != nil && r.interrupted[n] {
+			continue
+		}
+		names = append(names, n)
+	}
 	for _, n := range names {
 		if _, ok := ri.versions[n]; ok {
 			continue
@@ -150,6 +270,9 @@ func (r *mwRun) vacuumStep(s MWStep, where string) error {
 	nodesBefore := nodeObjects(r.store, r.prefix)
 	from := r.store.LogLen()
 
+	if s.VacFault != "" {
+		return r.faultyVacuum(s, where, cutSec, modelCut, far, before, from)
+	}
 	if err := w.conn.Vacuum(w.name, cutSec); err != nil {
 		return fmt.Errorf("%s: s3db_vacuum fails: %v", where, err)
 	}
